@@ -97,6 +97,9 @@ def doc_versions(rng, n, directed=False):
         steps.append(("doc", big, "burst_first"))
         steps.append(("doc", render(), "burst_second"))
     steps.append(("doc", render(), "open"))
+    # one finding of every code, so that every configuration variant is seen filtering (or not filtering) each of them
+    parts["und"] = parts["cycle"] = parts["mismatch"] = True
+    steps.append(("doc", render(), "add_all_kinds"))
     if directed:
         # a dependency that the conftest supplies through its import is renamed in the imported module
         parts["mismatch_h"] = True
